@@ -120,4 +120,24 @@ CHECKS = {
             {"name": "negotiate", "test": "TestNegotiate", "quick": 1500, "thorough": 12000, "shards": 16},
         ],
     },
+    "C08": {
+        "pkg": "c08",
+        "level": "exploration",
+        "level_text": ("Generated RPC histories (2-12 calls) against a NETCONF server model that per request replies now (optionally "
+                       "delayed but always a full transit time before the deadline), after the caller's timeout, or never; echoing and "
+                       "non-echoing transports, 1.0 and 1.1, generated read segmentation and read delays, on a virtual clock. Invariant "
+                       "over the history: ids seen by the server are 101,102,...; every call returns its own message-id and marker or a "
+                       "timeout error; a reply sent in time is returned (nothing lost); a late reply never surfaces in a later call."),
+        "level_note": ("Trusted: sim.NCServer, the virtual clock, the transit bound used to size timeouts (a reply counts as 'sent before "
+                       "the deadline' only if it also had time to pass the two polling loops). Timeouts are 5-250 ms virtual rather than "
+                       "seconds because the RPC wait loop polls every 5 us."),
+        "technique": "property-based testing (rapid) of generated call/server-behaviour histories with an ownership invariant, virtual time",
+        "rule": ("history of {now, late, never} behaviours x version x echo x cut plan x delays. Non-trivial: a late/never reply followed by a "
+                 "successful call, or echo on, or >= 4 RPCs. Distinct = sha1(case)."),
+        "assumptions": ["one read never carries bytes of two server messages (quantifier; enforced by read barriers in the model)",
+                        "replies are single-chunk and free of the C02 known shapes"],
+        "subs": [
+            {"name": "ownreply", "test": "TestOwnReply", "quick": 1200, "thorough": 10000, "shards": 16},
+        ],
+    },
 }
